@@ -57,6 +57,25 @@ def build_top(spec):
     return o, reg
 
 
+def probe(p, emdpaths):
+    """read every given node path individually (tree=False) with the package's own reader"""
+    import emdfile
+    out = {}
+    for ep in emdpaths:
+        try:
+            with core.quiet():
+                r = emdfile.read(p, emdpath=ep, tree=False)
+            a = abs_read(r)
+            if a[0] == 'tree':
+                node = a[1] if a[2][0] == 'root' else (a[1]['kids'][0] if a[1]['kids'] else None)
+                out[ep] = None if node is None else [node['cls'], node['name'], node['tok'], node['rank'], sorted(map(tuple, node['mds']))]
+            else:
+                out[ep] = list(a)
+        except BaseException as e:
+            out[ep] = 'RAISED ' + type(e).__name__
+    return out
+
+
 def make_input(inp, tops):
     import emdfile
     k = inp['kind']
@@ -268,12 +287,25 @@ def run_scenario(sc, scratch, keep_objects=False):
             kw = {}
             if st.get('emdpath') is not None:
                 kw['emdpath'] = st['emdpath']
+            probe_before = probe(p, st['probe']) if st.get('probe') else None
+            fstate = None
             try:
                 with core.quiet():
-                    emdfile.save(p, target, mode=st['mode'], tree=st['tree'], **kw)
+                    if st.get('fault') is not None:
+                        from harness import faults
+                        with faults.inject(st['fault']) as fstate:
+                            emdfile.save(p, target, mode=st['mode'], tree=st['tree'], **kw)
+                    else:
+                        emdfile.save(p, target, mode=st['mode'], tree=st['tree'], **kw)
             except BaseException as e:
                 raised, exc = True, type(e).__name__ + ': ' + str(e)[:120]
             o = {'raised': raised, 'exc': exc, 'slot': abs_slot(p), 'sha_before': before_sha, 'sha_after': sha(p)}
+            if fstate is not None:
+                o['n_mut'] = fstate['n']; o['fault_fired'] = fstate['fired']
+                o['fault_at'] = fstate['log'][st['fault']] if 0 <= st['fault'] < len(fstate['log']) else None
+            if probe_before is not None:
+                o['probe_before'] = probe_before
+                o['probe_after'] = probe(p, st['probe'])
             snap_after = snap_tops(tops)
             o['objects_unchanged'] = (snap_before == snap_after)
             if not o['objects_unchanged']:
